@@ -240,6 +240,20 @@ def lookup_workload(res, ctx, rng, arities):
                 mixed += H.unrelated(rng, rng.randrange(0, 3))
             check_lookup_history(res, H.materialize(H.on_thread(7, mixed)), [(text.decode(), vn)],
                                  f'unrelated records between chunks {cls} {L}B', rng=rng)
+            if len(seq) > 1:
+                # (c2) windows of the same thread that OVERLAP the lookup without nesting: one opened before the lookup's
+                # first record and closed between its records, one opened between them and closed after its last
+                cut = rng.randrange(1, len(seq))
+                call = rng.choice(('BSC_getpid', 'BSC_read', 'MACH_vmfault', 'BSC_sys_close'))
+                ws, we = domain.gen_words(rng, call, 'S'), domain.gen_words(rng, call, 'E')
+                for shape in ('closes inside', 'opens inside'):
+                    if shape == 'closes inside':
+                        over = [H.A(call, H.START, ws)] + seq[:cut] + [H.A(call, H.END, we)] + seq[cut:]
+                    else:
+                        over = seq[:cut] + [H.A(call, H.START, ws)] + seq[cut:] + [H.A(call, H.END, we)]
+                    check_lookup_history(res, H.materialize(H.on_thread(7, over)), [(text.decode(), vn)],
+                                         f'a {call} window that {shape} the lookup (overlapping, not nested) {cls} {L}B')
+                    res.count('lookups_overlapped_by_another_window')
             res.count('chunks_' + str(min(len(seq), 6)))
             # (b) inside path-taking syscalls (rotating over all discovered decoders), (d) 1..6 lookups
             for rep in range(ctx.pick(2, 40)):
@@ -633,6 +647,7 @@ def run(ctx):
     res.require('lookup_histories_through_a_dump', 10)
     res.require('identical_lookup_windows', 8)
     res.require('sibling_lookup_windows', 40)
+    res.require('lookups_overlapped_by_another_window', 40)
     res.require('scale_lookup_windows', 4)
     res.require('edge_character_texts', 2000)
     res.require('narrow_word_lookups', 20)
